@@ -101,34 +101,47 @@ def run_spec(spec, props=("C07", "C08")):
         return A.result(props)
     if kind == "hier_graph":
         G = gr.mk(spec["n"], [tuple(e) for e in spec["edges"]]); N = float(G.order())
+        # degree = what G.degree() says: a self-loop counts twice, parallel edges of a MultiGraph count separately
+        for v in spec.get("loops", []):
+            G.add_edge(v, v)
+        if spec.get("multi"):
+            G = nx.MultiGraph(G)
+            G.add_edges_from([tuple(e) for e in spec["multi"]])
         names = ["EBCM_from_graph", "SIR_compact_pairwise_from_graph", "SIR_super_compact_pairwise_from_graph",
                  "SIR_effective_degree_from_graph", "SIR_compact_effective_degree_from_graph", "EBCM_pref_mix_from_graph"]
-        for rho in spec["rhos"]:
-            for (tau, gamma) in spec["rates"]:
-                for grid in spec["grids"]:
-                    A.evals += 1
-                    tag = "graph n=%d edges=%r, rho=%g, tau=%g, gamma=%g, grid=%r" % (spec["n"], spec["edges"], rho, tau, gamma, grid)
-                    outs = {}
-                    for name in names:
-                        if name == "EBCM_pref_mix_from_graph" and not spec.get("uncorrelated"):
+        # the same graph OBJECT analysed again after it was edited in place (nothing about a graph may be remembered
+        # across calls): phase 1 adds one edge to G and repeats every comparison
+        for phase in ((0, 1) if spec.get("edit") else (0,)):
+            phase_tag = ""
+            if phase == 1:
+                G.add_edge(*spec["edit"])
+                phase_tag = " [same graph object after adding edge %r in place]" % (tuple(spec["edit"]),)
+            for rho in spec["rhos"]:
+                for (tau, gamma) in spec["rates"]:
+                    for grid in spec["grids"]:
+                        A.evals += 1
+                        tag = "graph n=%d edges=%r%s%s, rho=%g, tau=%g, gamma=%g, grid=%r" % (spec["n"], spec["edges"], (" + self-loops at %r" % spec["loops"]) if spec.get("loops") else "", (" + parallel edges %r (MultiGraph)" % spec["multi"]) if spec.get("multi") else "", rho, tau, gamma, grid) + phase_tag
+                        outs = {}
+                        for name in names:
+                            if name == "EBCM_pref_mix_from_graph" and not spec.get("uncorrelated"):
+                                continue
+                            try:
+                                outs[name] = cat.call(EoN, name, G, ("rho", rho), tau, gamma, tuple(grid), False)
+                            except Exception as e:
+                                A.add(V("C07", name, "graph", "exception", "%s: %s raised %s: %s" % (tag, name, type(e).__name__, str(e)[:100])))
+                        if "EBCM_from_graph" not in outs:
                             continue
-                        try:
-                            outs[name] = cat.call(EoN, name, G, ("rho", rho), tau, gamma, tuple(grid), False)
-                        except Exception as e:
-                            A.add(V("C07", name, "graph", "exception", "%s: %s raised %s: %s" % (tag, name, type(e).__name__, str(e)[:100])))
-                    if "EBCM_from_graph" not in outs:
-                        continue
-                    ref = outs["EBCM_from_graph"]
-                    A.states.add((spec["n"], tuple(map(tuple, spec["edges"])), rho, tau, gamma, tuple(grid))); A.nontrivial.add((hsh(spec["edges"]), rho, tau, gamma, tuple(grid)))
-                    for name, o in outs.items():
-                        d = maxdev(o[1:4], ref[1:4]) / N
-                        if not np.isfinite(d):
-                            A.add(V("C07", name, "graph", "nonfinite", "%s: %s returns nan" % (tag, name))); continue
-                        A.max["max_rel_dev_hierarchy"] = max(A.max.get("max_rel_dev_hierarchy", 0.0), d)
-                        A.trans.add((name, hsh(spec["edges"]), rho, tau, gamma))
-                        if d > TOL7:
-                            A.add(V("C07", name, "graph", "disagrees_with_EBCM", "%s: %s differs from EBCM_from_graph by %.3g N" % (tag, name, d), (), d, TOL7))
-                    A.outcomes.add(hsh(np.round(ref[3], 6).tolist()))
+                        ref = outs["EBCM_from_graph"]
+                        A.states.add((spec["n"], tuple(map(tuple, spec["edges"])), rho, tau, gamma, tuple(grid))); A.nontrivial.add((hsh(spec["edges"]), rho, tau, gamma, tuple(grid)))
+                        for name, o in outs.items():
+                            d = maxdev(o[1:4], ref[1:4]) / N
+                            if not np.isfinite(d):
+                                A.add(V("C07", name, "graph", "nonfinite", "%s: %s returns nan" % (tag, name))); continue
+                            A.max["max_rel_dev_hierarchy"] = max(A.max.get("max_rel_dev_hierarchy", 0.0), d)
+                            A.trans.add((name, hsh(spec["edges"]), rho, tau, gamma))
+                            if d > TOL7:
+                                A.add(V("C07", name, "graph", "disagrees_with_EBCM", "%s: %s differs from EBCM_from_graph by %.3g N" % (tag, name, d), (), d, TOL7))
+                        A.outcomes.add(hsh(np.round(ref[3], 6).tolist()))
         A.execs = A.evals
         A.sample = {"spec": spec}
         return A.result(props)
@@ -187,6 +200,14 @@ def specs_c07(tier):
     for n, es in gs:
         G = gr.mk(n, es)
         out.append(dict(kind="hier_graph", n=n, edges=es, rhos=rhos, rates=rates, grids=grids, uncorrelated=False))
+    for n, es in [gr.NAMED["paw"], gr.NAMED["P4"], gr.NAMED["bull"], gr.NAMED["S4"], gr.NAMED["C5"]]:
+        nonedge = [(u, v) for u in range(n) for v in range(u + 1, n) if (u, v) not in [tuple(sorted(e)) for e in es]][0]
+        out.append(dict(kind="hier_graph", n=n, edges=es, edit=list(nonedge), rhos=rhos[:2], rates=rates[:2], grids=grids[:1], uncorrelated=False))
+    for n, es in [gr.NAMED["paw"], gr.NAMED["P4"], gr.NAMED["bull"], gr.NAMED["S4"]]:
+        out.append(dict(kind="hier_graph", n=n, edges=es, loops=[1], rhos=rhos, rates=rates[:2], grids=grids[:1], uncorrelated=False))
+        out.append(dict(kind="hier_graph", n=n, edges=es, loops=[0, n - 1], rhos=rhos, rates=rates[:2], grids=grids[:1], uncorrelated=False))
+        out.append(dict(kind="hier_graph", n=n, edges=es, multi=[list(es[0]), list(es[-1])], rhos=rhos, rates=rates[:2], grids=grids[:1], uncorrelated=False))
+        out.append(dict(kind="hier_graph", n=n, edges=es, loops=[1], multi=[list(es[0]), list(es[0])], rhos=rhos, rates=rates[:2], grids=grids[:1], uncorrelated=False))
     for name, n, es in gr.regular_graphs():
         if n > 8 and not thorough:
             continue
